@@ -277,4 +277,25 @@ func init() {
 		p.Thorough = p.Quick
 		props["C08"] = p
 	}
+
+	// ---- C09 ----
+	{
+		p := &Prop{ID: "C09", Outside: []string{
+			"expression families other than access chains over the scope contexts with segments .x / .* / [0] / ['x'] / .rows; job variants other than the seven of the library",
+			"state of the two external-tool rules",
+			"the pair comparisons are exhaustive enumerations of a finite family (shape-symbolic); the solver is involved only for the symbolic property letter of the frozen-scope harness",
+		}}
+		p.Quick = []HRun{
+			{Entry: "HarnessC09Frozen", Args: []int64{2}, Bound: "every chain base(12) + 2 segments(6 each) + symbolic property letter: no write to the job's scope types or built-in tables while it is checked", Require: []string{"checked"}},
+			{Entry: "HarnessC09Exprs", Args: []int64{2, 1}, Bound: "all pairs (earlier chain of depth 2, later chain of depth 1) in one job", Require: []string{"compared"}},
+			{Entry: "HarnessC09Jobs", Bound: "all ordered pairs of 7 job variants x both iteration orders of the jobs map", Require: []string{"compared"}},
+		}
+		p.Thorough = []HRun{
+			{Entry: "HarnessC09Frozen", Args: []int64{3}, Bound: "chains with 3 segments + symbolic property letter", Require: []string{"checked"}},
+			{Entry: "HarnessC09Exprs", Args: []int64{2, 2}, Bound: "all pairs of chains of depth 2 (186624 pairs)", Require: []string{"compared"}},
+			{Entry: "HarnessC09Exprs", Args: []int64{3, 1}, Bound: "earlier chain of depth 3, later of depth 1", Require: []string{"compared"}},
+			{Entry: "HarnessC09Jobs", Bound: "all ordered pairs of 7 job variants x both iteration orders of the jobs map", Require: []string{"compared"}},
+		}
+		props["C09"] = p
+	}
 }
